@@ -230,16 +230,19 @@ Fixpoint map_insert (k : N) (v : option N) (m : list (N * option N)) : list (N *
 Definition map_get (m : list (N * option N)) (k : N) : option (option N) :=
   match find (fun p => fst p =? k) m with Some p => Some (snd p) | None => None end.
 
+(* `mapping.extend(..)` / `mapping.insert(addr, None)` for every element of a list, in order *)
+Definition ins_all (kvs : list (N * option N)) (m : list (N * option N)) : list (N * option N) :=
+  fold_left (fun m kv => map_insert (fst kv) (snd kv) m) kvs m.
+
 (* transpose_row_addrs: [row_addrs] = the captured addresses (a RoaringTreemap: ascending) *)
 Definition transpose (row_addrs : list N) (olds news : list digest) : outcome (list (N * option N)) :=
   match olds with
   | [] => Panic                                             (* assert!(!fragments.is_empty()) *)
   | first :: _ =>
-      let m1 := fold_left (fun m kv => map_insert (fst kv) (snd kv) m)
-                          (combine row_addrs (map Some (new_addrs news))) [] in
+      let m1 := ins_all (combine row_addrs (map Some (new_addrs news))) [] in
       match missing_walk (S (N.to_nat (sum_n (map dg_phys olds)))) row_addrs None (dg_id first * two32) olds with
       | None => Panic                                       (* out of fuel: an empty old fragment (E3) *)
-      | Some miss => Ok (fold_left (fun m a => map_insert a None m) miss m1)
+      | Some miss => Ok (ins_all (map (fun a => (a, None)) miss) m1)
       end
   end.
 
@@ -346,13 +349,13 @@ Definition versions_shape (stable : bool) (l : list Fragment) : bool :=
 (* E3 for the fragments of a task *)
 Definition remap_dom (olds news : list Fragment) : bool :=
   forallb (fun f => (fr_id f <? two32) && (0 <? phys_n f) && (phys_n f <? two32)
-                    && deletion_ok (phys_n f) (fr_deletion f)) olds
-  && nodup_n (frag_ids olds)
-  && forallb (fun f => (fr_id f <? two32) && (phys_n f <? two32)) news
+                    && deletion_ok (phys_n f) (fr_deletion f) && is_some (fr_phys f)) olds
+  && strict_sorted_n (frag_ids olds)
+  && forallb (fun f => (fr_id f <? two32) && (phys_n f <? two32) && is_some (fr_phys f) && negb (is_some (fr_deletion f))) news
   && nodup_n (frag_ids news)
   && (sum_n (map phys_n news) =? total_live olds)
   (* MissingAddrs reads address 0 when row_addrs is exhausted: "guaranteed to not match" only if *)
-  && (negb (total_live olds =? 0) || negb (match olds with f :: _ => fr_id f =? 0 | [] => false end)).
+  && (negb (total_live olds =? 0) || negb (match olds with f :: _ => fr_id f =? 0 | [] => true end)).
 
 (* ================================================================ 6. correspondence checkers *)
 Definition chk_plan (i : copts * list fmetric) (o : outcome (list (list N))) : bool :=
@@ -396,3 +399,33 @@ Definition obs_rows (l : list Fragment) : list (N * (option N * (N * N))) :=
   flat_map (fun f => map (obs_row f) (live_offsets f)) l.
 Definition chk_scan (m : Manifest) (o : list (N * (option N * (N * N)))) : bool :=
   list_eqb (pair_eqb N.eqb (pair_eqb (option_eqb N.eqb) (pair_eqb N.eqb N.eqb))) (obs_rows (m_fragments m)) o.
+
+(* ================================================================ 7. committing onto a later version *)
+(* commit_compaction builds the Rewrite against the manifest of the HANDLE it is given (Transaction::new(
+   dataset.manifest.version, ..)); RewriteResult.read_version is not consulted.  [olds_unchanged]: every old
+   fragment of the groups is the same record in the manifest the tasks read and in the one the Rewrite is
+   applied to. *)
+Definition find_frag (l : list Fragment) (i : N) : option Fragment := find (fun f => fr_id f =? i) l.
+Definition olds_unchanged (m_read m_commit : Manifest) (groups : list RewriteGroup) : bool :=
+  forallb (fun i => is_some (find_frag (m_fragments m_read) i)
+                    && option_eqb fragment_eqb (find_frag (m_fragments m_read) i) (find_frag (m_fragments m_commit) i))
+          (flat_map rg_old groups).
+(* Known finding (C13) commit_ignores_task_read_version: the Rewrite is applied to a manifest in which an old
+   fragment of a committed task differs from what the task read (a delete / update committed in between), and
+   no conflict is detected because the transaction's read version is the handle's *)
+Definition Known_C13_commit_ignores_task_read_version (m_read m_commit : Manifest) (groups : list RewriteGroup) : bool :=
+  negb (olds_unchanged m_read m_commit groups).
+
+(* the tasks are fine for the manifest they read, and the ids they carry are fresh for the manifest they are
+   committed to *)
+Definition tasks_ok (m_read m_commit : Manifest) (groups : list RewriteGroup) : bool :=
+  Bool.eqb (uses_stable m_read) (uses_stable m_commit)
+  && forallb (group_ok (uses_stable m_read) (m_fragments m_read)) groups
+  && nodup_n (flat_map rg_old groups)
+  && nodup_n (reserved_of groups)
+  && forallb (fun i => negb (n_mem i (frag_ids (m_fragments m_commit)))
+                       && match max_fragment_id m_commit with Some mx => i <=? mx | None => false end) (reserved_of groups).
+
+Definition chk_tasks_ok (i : Manifest * Manifest * list RewriteGroup) (o : bool * bool) : bool :=
+  let '(mr, mc, groups) := i in
+  Bool.eqb (tasks_ok mr mc groups) (fst o) && Bool.eqb (Known_C13_commit_ignores_task_read_version mr mc groups) (snd o).
